@@ -1,1 +1,2 @@
 pub mod syn;
+pub mod layout;
